@@ -219,7 +219,7 @@ pub fn tileset_images(sp: &Sprite) -> V {
             m(vec![
                 ("id", n(t.id)),
                 ("image", V::Img(refrender::tileset_image(sp, t))),
-                ("tiles", V::L((0..t.count).map(|i| V::Img(refrender::tile_image(sp, t, i))).collect())),
+                ("tiles", V::L(crate::observe::tile_sample(t.count).into_iter().map(|i| V::Img(refrender::tile_image(sp, t, i))).collect())),
             ])
         })
         .collect())
